@@ -248,6 +248,9 @@ def run(ctx):
             v, at = rv[r['id']]
             if v.startswith('harness:'):
                 raise tlc.TLCError('harness-level verdict on real transport: %s %s' % (v, r['meta']))
+            own = [x for x in rst['all'].get(r['id'], [v]) if x.startswith('C04:')]
+            if own:
+                v = own[0]
             if v != 'ok' and v.startswith('C04:'):
                 ctx.fail(v, {'real_transport': r['meta']}, detail={'event_index': at, 'events': r['ev'][:at]},
                          signature={'transport': r['meta']['transport'], 'unicode': r['meta']['unicode']})
@@ -265,10 +268,18 @@ def run(ctx):
             'C04': ('C03:missed-match-contract-found-one',)}
     for t in uniq:
         v, at = verdicts[t['id']]
-        if v != 'ok' and v.startswith(pid + ':'):
-            ctx.fail(v, {'meta': t['meta']}, detail={'event_index': at, 'events': t['ev'][:at]},
+        # the event's failing clauses in the trace spec's order: this property's own one counts even when a clause of
+        # another property fails before it
+        names = st['all'].get(t['id'], [v])
+        own = [x for x in names if x.startswith(pid + ':')]
+        if v != 'ok' and own:
+            v = own[0]
+            ctx.fail(v, {'meta': t['meta']}, detail={'event_index': at, 'events': t['ev'][:at], 'all_failing_clauses': names},
                      signature=signature_of(t, v))
-        elif v in also.get(pid, ()):
+            continue
+        alt = [x for x in names if x in also.get(pid, ())]
+        if alt:
+            v = alt[0]
             ctx.fail(('%s:outcome-differs-from-naive-search(%s)' if pid == 'C03' else '%s:occurrence-in-pending-text-lost-to-eof-or-timeout(%s)') % (pid, v), {'meta': t['meta']},
                      detail={'event_index': at, 'events': t['ev'][:at]}, signature=signature_of(t, v))
     status, nviol, nknown = common.conclude(ctx)
